@@ -75,4 +75,45 @@ def targets():
     for cname, tu, flt, kw in BODIES:
         defs = ['NV_C02'] + (['NV_LS_MAX=1000'] if cname.startswith('asga') else [])   # asga::lsearch_max_iters in [10, 1000]
         ts.append(Target(cname, [body(cname, tu, flt, **kw), common.fn_done()], H, replace=['solver_done'], defines=defs))
+    ts.append(penalty_target())
     return ts
+
+
+def vec_of(P, a):
+    """address of the vector a vector_cmap_t / vector_map_t argument is a view of (the conversion is looked through)"""
+    u = unwrap(a)
+    while u.get('kind') in ('CXXConstructExpr', 'MaterializeTemporaryExpr', 'CXXBindTemporaryExpr') and len(u.get('inner', [])) == 1:
+        u = unwrap(u['inner'][0])
+    return P.addr(u)
+
+
+def penalty_update_hook(P, n):
+    """bstate.update(x): the member template update<tvector>(x, {}, {}) = one evaluation of the state's function at x"""
+    if n.get('kind') != 'CXXMemberCallExpr':
+        return None
+    me = n['inner'][0]
+    if me.get('name') != 'update' or 'solver_state_t' not in me['inner'][0].get('type', {}).get('qualType', ''):
+        return None
+    args = n['inner'][1:]
+    if len(args) == 3 and all(unwrap(a).get('kind') == 'CXXDefaultArgExpr' for a in args[1:]):
+        obj = me['inner'][0]
+        P.note('state.update(x)')
+        return f'nv_state_update_x({P.expr(obj) if me.get("isArrow") else P.addr(obj)}, {P.addr(args[0])})'
+    if len(args) == 5 and all(unwrap(a).get('kind') == 'CXXDefaultArgExpr' for a in args[3:]):
+        obj = me['inner'][0]
+        P.note('state.update(x, gx, fx)')
+        return f'nv_state_update3({P.expr(obj) if me.get("isArrow") else P.addr(obj)}, {vec_of(P, args[0])}, {vec_of(P, args[1])}, {P.expr(args[2])})'
+    return None
+
+
+def penalty_target():
+    vt = vectrack.VecTrack()
+    members = [(r'^function\|.*penalty_function_t', 'nv_pf_function'), (r'^penalty\|.*penalty_function_t', '@drop'),
+               (r'^minimize\|nano::solver_t', 'nv_inner_minimize({&1})'), (r'^more_precise\|nano::solver_t', '@drop'),
+               (r'^done\|', 'solver_done')] + MEMBERS
+    calls = [(r'^converged\|', '@nondet'), (r'^make_solver\|', '@nondet')] + CALLS
+    f = Fn('penalty_minimize', 'src/solver/penalty.cpp', 'minimize', flt='solver_penalty_t::minimize', self_struct='struct nv_solver',
+           types=TYPES, calls=calls, members=members, hooks=[vgrad_hook, penalty_update_hook, vt.expr_hook] + list(common.HOOKS),
+           stmt_hooks=[vt.stmt_hook], opaque=list(common.OPAQUE) + [r'penalty_function_t', r'unique_ptr<nano::solver_t|^(nano::)?rsolver_t$'],
+           aggregates=['struct nv_tuple_b_f64'])
+    return Target('penalty_minimize', [f, common.fn_done()], H, replace=['solver_done'], defines=['NV_C02'])
